@@ -22,6 +22,7 @@ from mc.ref.competition import check_selection, unique_selection
 from mc.ref.tdc import ref_qvalues
 
 PROPERTY = "C03"
+SIZE_MODULES = ['mokapot.confidence', 'mokapot.utils', 'mokapot.streaming', 'mokapot.tabular_data']  # see mc.runner._sized_passes
 LEVEL = "exploration"
 RULE = (
     "case = (canonical core table: n rows in descending score order, each (spectrum, peptide class+index) up to "
